@@ -199,7 +199,7 @@ theorem in_fwd {l : Expr} {xs : Exprs} {a : OTree} {ka : OKind} {items : List OT
     (ha : saVisit fields core l = .ok (a, ka)) (hka : ka ≠ .list) (hi : saVisitList fields core xs = .ok items)
     (hx : saSql a = some x) (hts : saSqlList (OTrees.ofList items) = some ts) :
     ∃ t k s, saVisit fields core (.compare .in_ l (.list xs)) = .ok (t, k) ∧ saSql t = some s := by
-  rw [visit_compare, visit_list, ha, hi]
+  rw [visit_compare_in, visit_list, ha, hi]
   simp only [Outcome.bind_ok]
   rw [if_pos (by decide), if_neg (by simp [hka])]
   exact ⟨_, _, _, rfl, by rw [saSql_in, hx, hts]; rfl⟩
@@ -212,7 +212,7 @@ theorem transB : (b : BoolE) → C01.wfB b = true → saFrag b = true → colsB 
       obtain ⟨b, kb, y, hb, hy⟩ := transI fields core r hw.2 hf.2 hc.2
       obtain ⟨hka, hca⟩ := kindI fields core ha
       obtain ⟨hkb, hcb⟩ := kindI fields core hb
-      rw [BoolE.toExpr, compare_fwd fields core k ha hb hka hkb (by simp [hca, hcb])]
+      rw [BoolE.toExpr, compare_fwd fields core k (C01.isNullLit_I l) ha hb hka hkb (by simp [hca, hcb])]
       exact ⟨_, _, _, rfl, by
         rw [saSql_cmp k a b (isNullConst_of_not_const hca) (isNullConst_of_not_const hcb), hx, hy]; rfl⟩
   | .cmpS k l r, hw, hf, hc => by
@@ -221,7 +221,7 @@ theorem transB : (b : BoolE) → C01.wfB b = true → saFrag b = true → colsB 
       obtain ⟨b, kb, y, hb, hy⟩ := transS fields core r hw.2 hf.2 hc.2
       obtain ⟨hka, hca⟩ := kindS fields core ha
       obtain ⟨hkb, hcb⟩ := kindS fields core hb
-      rw [BoolE.toExpr, compare_fwd fields core k ha hb hka hkb (by simp [hca, hcb])]
+      rw [BoolE.toExpr, compare_fwd fields core k (C01.isNullLit_S l) ha hb hka hkb (by simp [hca, hcb])]
       exact ⟨_, _, _, rfl, by
         rw [saSql_cmp k a b (isNullConst_of_not_const hca) (isNullConst_of_not_const hcb), hx, hy]; rfl⟩
   | .cmpB k l r, hw, hf, hc => by
@@ -233,7 +233,7 @@ theorem transB : (b : BoolE) → C01.wfB b = true → saFrag b = true → colsB 
       have hk : (k.toOp == .lt || k.toOp == .le || k.toOp == .gt || k.toOp == .ge) = false := by
         have := hw.1.1
         cases k <;> simp at this <;> rfl
-      rw [BoolE.toExpr, compare_fwd fields core k ha hb hka hkb (by rw [hk]; rfl)]
+      rw [BoolE.toExpr, compare_fwd fields core k (C01.isNullLit_B l) ha hb hka hkb (by rw [hk]; rfl)]
       exact ⟨_, _, _, rfl, by rw [saSql_cmp k a b hca hcb, hx, hy]; rfl⟩
   | .isNull kind c negated, _, _, hc => by
       rw [colsB] at hc
